@@ -6,7 +6,7 @@ import os, subprocess, sys, glob
 
 VERIF = os.path.dirname(os.path.dirname(os.path.abspath(__file__)))
 REPO = os.environ.get("VERIF_REPO", "/repo")
-BUILD = os.path.join(VERIF, "build")
+BUILD = os.environ.get("VERIF_BUILD", os.path.join(VERIF, "build"))
 GUARD = "COLVARS_VERIF"
 
 VARIANTS = {
